@@ -242,6 +242,46 @@ fn round_robin_list(rng: &mut Rng, number: u16) -> (Vec<Entry>, &'static str) {
     (entries, "round_robin_over_satellites")
 }
 
+/// complete rounds over all satellites (every satellite once per round, ascending), with one entry of a later round
+/// handed to a neighbouring satellite: that round is still ascending, but no longer a copy of the first one
+fn rounds_with_one_substitution(rng: &mut Rng, number: u16) -> (Vec<Entry>, &'static str) {
+    let (nsat_max, table): (usize, &[(u8, u8, char)]) = if number == 1059 { (64, &SSR_GPS) } else { (32, &SSR_GLO) };
+    let tl = table.len();
+    let k = rng.range(2, tl as i64 - 1) as usize; // rounds; one signal per satellite is kept in reserve
+    let ns = (rng.range(3, nsat_max as i64) as usize).min(390 / k);
+    let mut all: Vec<u8> = (0..nsat_max as u8).collect();
+    rng.shuffle(&mut all);
+    let mut sats: Vec<u8> = all[..ns].to_vec();
+    sats.sort();
+    let sigs: Vec<Vec<usize>> = (0..ns)
+        .map(|_| {
+            let mut v: Vec<usize> = (0..tl).collect();
+            rng.shuffle(&mut v);
+            v
+        })
+        .collect();
+    let mut entries: Vec<Entry> = Vec::new();
+    for pass in 0..k {
+        for i in 0..ns {
+            let si = sigs[i][pass];
+            entries.push((sats[i], table[si].1, table[si].2, rng.range(-8192, 8191) as i32));
+        }
+    }
+    let subs = if rng.chance(1, 4) { 2 } else { 1 };
+    for _ in 0..subs {
+        let r = rng.range(1, k as i64 - 1) as usize;
+        let j = rng.usize_below(ns);
+        let nb = if j == 0 { 1 } else if j == ns - 1 || rng.bool() { j - 1 } else { j + 1 };
+        let si = sigs[nb][k]; // a signal the neighbour has not used
+        // (satellite, signal) pairs stay distinct and the list keeps its length
+        if !entries.iter().any(|e| e.0 == sats[nb] && e.1 == table[si].1 && e.2 == table[si].2) {
+            let bias = entries[r * ns + j].3;
+            entries[r * ns + j] = (sats[nb], table[si].1, table[si].2, bias);
+        }
+    }
+    (entries, "rounds_over_all_satellites_with_a_substitution")
+}
+
 fn hostile_frames(ctx: &mut Ctx, rng: &mut Rng, number: u16, n: usize) {
     for _ in 0..n {
         ctx.eval();
@@ -315,7 +355,13 @@ pub fn run(p: &Params) -> Outcome {
                 break;
             }
             let number = if i % 2 == 0 { 1059 } else { 1065 };
-            let (mut e, mut class) = if i % 3 == 2 { round_robin_list(&mut rng, number) } else { random_list(&mut rng, number) };
+            let (mut e, mut class) = if i % 6 == 5 {
+                rounds_with_one_substitution(&mut rng, number)
+            } else if i % 3 == 2 {
+                round_robin_list(&mut rng, number)
+            } else {
+                random_list(&mut rng, number)
+            };
             if i % 11 == 5 && !e.is_empty() {
                 // one satellite replaced by an id outside the wire range (first run, last run or
                 // anywhere): the only admissible outcomes are an error or the exact multiset
